@@ -11,6 +11,7 @@ CONSTANTS
   FlushAtomic = TRUE
   LatchChecked = TRUE
   CloseLatches = TRUE
+  TimeoutReleases = FALSE
   Fifo = TRUE
   OnlyBad = FALSE
   Family = "twocalls"
